@@ -114,6 +114,9 @@ func runC10(w *World, r *Report) {
 
 	c10LoopsAndTries(w, r, bp, cp, opTryPop, opc("Branch"), opc("Push"), opc("DropToMarker"))
 	c10ReturnDropsMarkers(w, r)
+	c10UnwindToTarget(w, r)
+	c10MarkerCount(w, r)
+	c10DefersRunOnce(w, r)
 
 	// ------------------------------------------------------------ R-C10-1
 	push := w.ssaFunc(bp, "Context.callFramePushWithTable")
